@@ -135,6 +135,52 @@ def _continuation(mod: Any, node: ast.stmt, fn: ast.AST) -> Tuple[List[ast.stmt]
         cur = parent
 
 
+def _state_flag_justifies(kv: Any, parse: ast.AST, sub: ast.Subscript) -> bool:
+    """The one enumerated shape invariant of Keyvalues.parse: `block_line is BLOCK_LINE_EXPECT` implies that the current block's child list is
+    non-empty.  Accepted for `<list>[-1]` when (1) the read sits in the else arm of `if block_line is BLOCK_LINE_SKIP` after an
+    `if block_line is BLOCK_LINE_NONE: raise` in the same block (so the flag is EXPECT there), (2) every `block_line = BLOCK_LINE_EXPECT`
+    shares its statement list with an append / last-element store into that very list on every path, and (3) while the flag is not NONE
+    only NEWLINE tokens are let through (the `elif block_line is not BLOCK_LINE_NONE and token_type is not NEWLINE: raise` arm), so the
+    list cannot be re-bound in between."""
+    lst = dotted(sub.value)
+    if lst is None:
+        return False
+    st: Any = sub
+    while st is not None and not isinstance(st, ast.stmt):
+        st = kv.parents.get(st)
+    branch = kv.parents.get(st)
+    if not (isinstance(branch, ast.If) and st in branch.orelse and ast.unparse(branch.test) == 'block_line is BLOCK_LINE_SKIP'):
+        return False
+    outer = kv.parents.get(branch)
+    blk = getattr(outer, 'body', [])
+    if branch not in blk:
+        return False
+    none_raise = any(isinstance(p, ast.If) and ast.unparse(p.test) == 'block_line is BLOCK_LINE_NONE' and p.body and isinstance(p.body[-1], ast.Raise) for p in blk[:blk.index(branch)])
+    if not none_raise:
+        return False
+
+    def stores(stmts: Any) -> bool:
+        for x in stmts:
+            if isinstance(x, ast.Expr) and isinstance(x.value, ast.Call) and isinstance(x.value.func, ast.Attribute) and x.value.func.attr == 'append' and dotted(x.value.func.value) == lst:
+                return True
+            if isinstance(x, ast.Assign) and any(isinstance(t, ast.Subscript) and dotted(t.value) == lst for t in x.targets):
+                return True
+            if isinstance(x, ast.If) and x.orelse and stores(x.body) and stores(x.orelse):
+                return True
+        return False
+    sets = [a for a in ast.walk(parse) if isinstance(a, ast.Assign) and ast.unparse(a.value) == 'BLOCK_LINE_EXPECT' and any(dotted(t) == 'block_line' for t in a.targets)]
+    if not sets:
+        return False
+    for a in sets:
+        par = kv.parents.get(a)
+        holder = next((b for b in (getattr(par, 'body', []), getattr(par, 'orelse', [])) if a in b), None)
+        if holder is None or not stores(holder):
+            return False
+    passthrough = any(isinstance(x, ast.If) and 'block_line is not BLOCK_LINE_NONE' in ast.unparse(x.test) and 'token_type is not NEWLINE' in ast.unparse(x.test) and x.body and isinstance(x.body[-1], ast.Raise)
+                      for x in ast.walk(parse))
+    return passthrough
+
+
 def run(ctx: Any, prog: Program) -> None:
     tk = prog.module('tokenizer')
     kv = prog.module('keyvalues')
@@ -189,6 +235,34 @@ def run(ctx: Any, prog: Program) -> None:
         if isinstance(n, ast.Return) and n.value is not None and isinstance(n.value, ast.Subscript) and dotted(n.value.value) not in ('self._cur_chunk',):
             ok = isinstance(n.value.slice, ast.Constant) and n.value.slice.value == 0
             ctx.check('C03.K1', ok, tk, n, 'refill must return the first character of the new chunk', text='_next_char: return chunk[0]')
+
+    # refill transparency: the chunk taken from the iterator becomes the current chunk unchanged, and nothing about its content other than
+    # emptiness/type is looked at - otherwise the position of chunk boundaries changes what the token functions see
+    refill = [l for l in ast.walk(nc) if isinstance(l, ast.For) and dotted(l.iter) == 'self._chunk_iter' and isinstance(l.target, ast.Name)]
+    if len(refill) != 1:
+        raise AnalysisError('_next_char: expected one refill loop over self._chunk_iter')
+    cv = refill[0].target.id
+    for n in ast.walk(refill[0]):
+        if isinstance(n, (ast.Assign, ast.AugAssign, ast.AnnAssign)):
+            tg = n.targets if isinstance(n, ast.Assign) else [n.target]
+            if any(isinstance(t, ast.Name) and t.id == cv for t in tg):
+                ctx.check('C03.K1', False, tk, n, f'_next_char rewrites the chunk it just loaded (`{ast.unparse(n)[:60]}`): characters are dropped or altered depending on where the input was cut', text='_next_char: chunk rewritten at load')
+            elif any(dotted(t) == 'self._cur_chunk' for t in tg):
+                ctx.check('C03.K1', dotted(n.value) == cv, tk, n, f'_next_char stores `{ast.unparse(n.value)[:60]}` as the current chunk instead of the chunk it loaded', text='_next_char: current chunk = loaded chunk')
+    for n in ast.walk(refill[0]):
+        if isinstance(n, ast.Name) and n.id == cv and isinstance(n.ctx, ast.Load):
+            par = tk.parents.get(n)
+            ok = (isinstance(par, ast.Call) and dotted(par.func) == 'isinstance') or isinstance(par, ast.If) or (isinstance(par, ast.Subscript) and isinstance(par.slice, ast.Constant) and par.slice.value == 0) \
+                or (isinstance(par, ast.Assign) and par.value is n) or (isinstance(par, ast.UnaryOp) and isinstance(par.op, ast.Not)) or (isinstance(par, ast.Call) and dotted(par.func) == 'len')
+            ctx.check('C03.K1', ok, tk, par if par is not None else n, f'_next_char inspects the content of the loaded chunk (`{ast.unparse(par)[:60] if par is not None else cv}`): only its type and emptiness may matter, '
+                      'anything else makes chunk boundaries observable', text=f'_next_char: chunk used as `{ast.unparse(par)[:40] if par is not None else cv}`')
+    # __init__: the cursor starts in front of the first character whatever the data is
+    init_fn = tok_methods.get('__init__')
+    if init_fn is not None:
+        for n in ast.walk(init_fn):
+            if isinstance(n, ast.Assign) and any(dotted(t) == 'self._char_index' for t in n.targets):
+                ok = isinstance(n.value, ast.UnaryOp) and isinstance(n.value.op, ast.USub) and isinstance(n.value.operand, ast.Constant) and n.value.operand.value == 1
+                ctx.check('C03.K1', ok, tk, n, f'__init__ starts the cursor at `{ast.unparse(n.value)[:50]}`: it must be -1 for every kind of input (a data-dependent start skips characters for a str but not for the same text in chunks)', text='__init__: cursor starts at -1')
 
     # ---- K9: acyclic call graph among the tokenizer's own methods -------------------------------------------
     graph: Dict[str, Set[str]] = {}
@@ -372,6 +446,64 @@ def run(ctx: Any, prog: Program) -> None:
         if isinstance(n, ast.Raise):
             ok = isinstance(n.exc, ast.Call) and dotted(n.exc.func) in ('tokenizer.error', 'KeyValError')
             ctx.check('C03.K5', ok, kv, n, 'Keyvalues.parse may raise only tokenizer.error(...) or KeyValError(...)')
+    # implicit IndexError: every constant-index read of a sequence in Keyvalues.parse is inside `try ... except IndexError`, or behind a
+    # non-emptiness test of that sequence (earlier operand of the same `and`, an enclosing `if`, or a preceding `if not seq: raise/return`)
+    def _seq_names(node: ast.AST) -> Set[str]:
+        d = dotted(node) or ''
+        return {d, d + '._value', d[:-len('._value')] if d.endswith('._value') else d}
+
+    def _tests_nonempty(test: ast.AST, names: Set[str]) -> bool:
+        for x in ast.walk(test):
+            if (dotted(x) or '') in names and isinstance(x, (ast.Name, ast.Attribute)):
+                par = kv.parents.get(x)
+                if isinstance(par, (ast.BoolOp, ast.If, ast.While)) or (isinstance(par, ast.Call) and dotted(par.func) == 'len'):
+                    return True
+        return False
+    n_sub = 0
+    for n in walk_no_nested(parse):
+        if not (isinstance(n, ast.Subscript) and isinstance(n.ctx, ast.Load)):
+            continue
+        idx = n.slice
+        const_idx = (isinstance(idx, ast.Constant) and isinstance(idx.value, int)) or (isinstance(idx, ast.UnaryOp) and isinstance(idx.op, ast.USub) and isinstance(idx.operand, ast.Constant))
+        if not const_idx:
+            continue
+        anc = kv.parents.get(n)
+        in_annotation = False
+        child: ast.AST = n
+        while anc is not None and anc is not parse:
+            if isinstance(anc, ast.AnnAssign) and child is anc.annotation:
+                in_annotation = True
+            child, anc = anc, kv.parents.get(anc)
+        if in_annotation:
+            continue
+        n_sub += 1
+        names = _seq_names(n.value)
+        safe = False
+        cur: Optional[ast.AST] = n
+        while cur is not None and cur is not parse and not safe:
+            par = kv.parents.get(cur)
+            if isinstance(par, ast.Try) and cur in par.body and any(h.type is None or any((dotted(e) or '').split('.')[-1] in ('IndexError', 'LookupError', 'Exception') for e in (h.type.elts if isinstance(h.type, ast.Tuple) else [h.type])) for h in par.handlers):
+                safe = True
+            if isinstance(par, ast.BoolOp) and isinstance(par.op, ast.And):
+                pos = par.values.index(cur) if cur in par.values else len(par.values)
+                if any(_tests_nonempty(v, names) or (dotted(v) or '') in names for v in par.values[:pos]):
+                    safe = True
+            if isinstance(par, ast.If) and cur in par.body and (_tests_nonempty(par.test, names) or (dotted(par.test) or '') in names):
+                safe = True
+            if isinstance(par, (ast.If, ast.For, ast.While, ast.FunctionDef)) or isinstance(cur, ast.stmt):
+                blk = next((b for b in (getattr(par, 'body', []), getattr(par, 'orelse', [])) if cur in b), None)
+                if blk is not None:
+                    for prev in blk[:blk.index(cur)]:
+                        if isinstance(prev, ast.If) and isinstance(prev.test, ast.UnaryOp) and isinstance(prev.test.op, ast.Not) and (dotted(prev.test.operand) or '') in names \
+                                and prev.body and isinstance(prev.body[-1], (ast.Raise, ast.Return, ast.Continue)):
+                            safe = True
+            cur = par
+        if not safe and _state_flag_justifies(kv, parse, n):
+            safe = True
+        ctx.check('C03.K5', safe, kv, n, f'`{ast.unparse(n)}` in Keyvalues.parse can raise a bare IndexError: nothing on the way to it establishes that `{ast.unparse(n.value)}` is non-empty '
+                  '(parse may only fail with KeyValError)', func='Keyvalues.parse', text=f'guarded index `{ast.unparse(n)}`')
+    if n_sub < 4:
+        raise AnalysisError(f'Keyvalues.parse: only {n_sub} constant-index reads found (confirmed by hand: open_keyvalues[-1], cur_block_contents[-1] x4, root[0])')
     # ---- K6 static part ---------------------------------------------------------------------------
     for name, fn in tok_methods.items():
         for n in walk_no_nested(fn):
@@ -415,6 +547,11 @@ def _guarded_by_nonstr(mod: Any, n: ast.AST) -> bool:
 
 
 MUTANTS = [
+    {'id': 'expect_block_without_append', 'file': 'keyvalues.py', 'find': "                    block_line = BLOCK_LINE_EXPECT\n                    can_flag_replace = False\n                    cur_block_contents.append(keyvalue)\n", 'replace': "                    block_line = BLOCK_LINE_EXPECT\n                    can_flag_replace = False\n", 'expect': 'C03.K5'},
+    {'id': 'flag_replace_unguarded_index', 'file': 'keyvalues.py', 'find': "                            can_flag_replace and\n                            cur_block_contents and\n                            cur_block_contents[-1]._real_name == token_value and\n                            cur_block_contents[-1].has_children()", 'replace': "                            can_flag_replace and\n                            cur_block_contents[-1]._real_name == token_value and\n                            cur_block_contents[-1].has_children()", 'expect': 'C03.K5'},
+    {'id': 'single_block_unguarded_root', 'file': 'keyvalues.py', 'find': "                    if not root._value:\n                        raise tokenizer.error('The block was disabled by its [flag], there is nothing to return.')\n", 'replace': "", 'expect': 'C03.K5'},
+    {'id': 'refill_strips_bom', 'file': 'tokenizer.py', 'find': "                    if chunk:\n                        self._cur_chunk = chunk\n                        self._char_index = 0", 'replace': "                    if self.line_num == 1 and chunk.startswith('\\uFEFF'):\n                        chunk = chunk[1:]\n                    if chunk:\n                        self._cur_chunk = chunk\n                        self._char_index = 0", 'expect': 'C03.K1'},
+    {'id': 'refill_len_test', 'file': 'tokenizer.py', 'find': "                    if chunk:\n                        self._cur_chunk = chunk\n                        self._char_index = 0", 'replace': "                    if len(chunk) > 0:\n                        self._cur_chunk = chunk\n                        self._char_index = 0", 'expect': None},
     {'id': 'comment_recurses', 'file': 'tokenizer.py', 'find': "        return None  # Swallow the comment.", 'replace': "        return self._get_token()  # Swallow the comment.", 'expect': 'C03.K9'},
     {'id': 'peek_chunk', 'file': 'tokenizer.py', 'find': "                        elif next_next_char == '/':\n                            break", 'replace': "                        elif next_next_char == '/' or self._cur_chunk[self._char_index:self._char_index + 1] == '/':\n                            break", 'expect': 'C03.K1'},
     {'id': 'rewind_two', 'file': 'tokenizer.py', 'find': "                            # \"**/\" parses correctly!\n                            self._char_index -= 1", 'replace': "                            # \"**/\" parses correctly!\n                            self._char_index -= 2", 'expect': 'C03.K1'},
